@@ -80,7 +80,11 @@ class Sim(object):
             self.pairs = [[k, Y.pair_text(v)] for k, v in op['hdr']]
             fn = self.newname()
             with open(fn, 'w') as f:
-                f.write(Y.render_simple(self.tables, op['hdr']))
+                text = Y.render_simple(self.tables, op['hdr'])
+                if op.get('nofinalnl') and text.endswith('\n'):
+                    # a file whose last line is not terminated (round 9): what is appended later must not run into it
+                    text = text[:-1]
+                f.write(text)
             self.obj = call(yanny, fn, raw=self.raw)
             self.fn = fn
             grew = fn
@@ -321,7 +325,7 @@ def make_machine(raw):
                                         t['rows'][0][j][0] = 'x'
                                     else:
                                         t['rows'][0][j] = 'x'
-                    self.step(dict(op='create_text', tables=tables, hdr=hdr))
+                    self.step(dict(op='create_text', tables=tables, hdr=hdr, nofinalnl=data.draw(st.sampled_from([True, False]))))
                 else:
                     self.step(dict(op='create', tables=tables, hdr=hdr))
 
